@@ -63,7 +63,13 @@ type idx struct {
 func newIdx(kind string, ms, d, nref int) *idx {
 	x := &idx{kind: kind, ms: ms, d: d}
 	for i := 0; i < nref; i++ {
-		x.names = append(x.names, fmt.Sprintf("chr%d", i+1))
+		// (names whose order of appearance is not their lexical order)
+		pool := []string{"chr2", "chr10", "chr1", "chrX", "chr3", "chr22", "alt_9", "chrM"}
+		if i < len(pool) {
+			x.names = append(x.names, pool[i])
+		} else {
+			x.names = append(x.names, fmt.Sprintf("zz%d", 1000-i))
+		}
 	}
 	switch kind {
 	case "bai":
